@@ -450,7 +450,7 @@ func run() int {
 		}
 	}
 	var crossRes []sym.CrossResult
-	crossMs := 20000
+	crossMs := 10000
 	if tier == "thorough" {
 		crossMs = 60000
 	}
